@@ -44,6 +44,7 @@ type c18Decl struct {
 	OnlyS   bool   `short:"s"`
 	HidS    bool   `short:"z" hidden:"1"`
 	Add     c18Add `command:"add"`
+	Add2    c18Hc  `command:"add2"`
 	Rm      c18Rm  `command:"rm" alias:"remove" subcommands-optional:"1"`
 	Hc      c18Hc  `command:"hidcmd" hidden:"1"`
 }
@@ -62,6 +63,7 @@ var c18Pool = []c18Item{
 	{"optsep", []string{"-f", "beta"}},
 	{"optsep", []string{"--file", "bet"}},
 	{"cmd", []string{"add"}},
+	{"cmd", []string{"add2"}},
 	{"cmd", []string{"rm"}},
 	{"cmd", []string{"remove"}},
 	{"cmd", []string{"sub"}},
@@ -74,9 +76,9 @@ func c18Prefix(s, p string) bool { return len(p) <= len(s) && s[:len(p)] == p }
 // c18Ref: the expected completion list for the typed items and partial word.
 // ok=false: the statement does not determine the list (partial short cluster).
 func c18Ref(typed []c18Item, pending bool, P string) (out []string, cmd string, afterRest bool, ok bool) {
-	longs := map[string][]string{"": {"verbose", "debug", "file", "opt"}, "add": {"force"}, "rm": {"rf"}, "rm/sub": {"deep"}}
+	longs := map[string][]string{"": {"verbose", "debug", "file", "opt"}, "add": {"force"}, "add2": {"q"}, "rm": {"rf"}, "rm/sub": {"deep"}}
 	shortOnly := map[string][]string{"": {"s"}}
-	subs := map[string][]string{"": {"add", "rm"}, "rm": {"sub"}}
+	subs := map[string][]string{"": {"add", "add2", "rm"}, "rm": {"sub"}}
 	posLeft, rest := 0, 0
 	terminated := false
 	for _, it := range typed {
@@ -100,7 +102,7 @@ func c18Ref(typed []c18Item, pending bool, P string) (out []string, cmd string, 
 			case rest > 0:
 				rest++
 				afterRest = true
-			case cmd == "" && (w == "add" || w == "rm" || w == "remove"):
+			case cmd == "" && (w == "add" || w == "add2" || w == "rm" || w == "remove"):
 				cmd = w
 				if w == "remove" {
 					cmd = "rm"
@@ -123,7 +125,7 @@ func c18Ref(typed []c18Item, pending bool, P string) (out []string, cmd string, 
 	}
 	scope := []string{""}
 	switch cmd {
-	case "add", "rm":
+	case "add", "add2", "rm":
 		scope = append(scope, cmd)
 	case "rm/sub":
 		scope = append(scope, "rm", "rm/sub")
@@ -263,7 +265,7 @@ func H_C18_accept(v *V) {
 		typed = append(typed, it)
 		argv = append(argv, it.toks...)
 	}
-	P := []string{"", "-", "--", "--f", "a", "r", "s"}[v.Choice(7)]
+	P := []string{"", "-", "--", "--f", "a", "r", "s", "add"}[v.Choice(8)]
 	_, _, afterRest, _ := c18Ref(typed, false, P)
 	if v.Known("c18_command_after_argument") && afterRest {
 		v.Assume(false)
@@ -309,7 +311,7 @@ func H_C18_accept(v *V) {
 		_, err := r.ParseArgs(try)
 		t, typedErr := vErrType(err)
 		v.Assert(!(typedErr && (t == ErrUnknownFlag || t == ErrUnknownCommand)), "every offered option or command is accepted by the parser at that position")
-		if !isOpt && refIn([]string{"add", "rm", "sub"}, item) {
+		if !isOpt && refIn([]string{"add", "add2", "rm", "sub"}, item) {
 			v.Assert(inner.Find(item) != nil, "offered commands are subcommands of the command context the parser itself reaches")
 		}
 	}
